@@ -42,6 +42,8 @@ def decorator_effect(prog, deco_qual) -> DecoratorEffect:
     fi = prog.functions.get(deco_qual)
     if fi is None:
         return eff
+    _MODULE_DEFS.clear()
+    _MODULE_DEFS.update(fi.module.defs)
     inners = [n for n in fi.node.body if isinstance(n, ast.FunctionDef)]
     target = fi.node
     if inners and any(isinstance(st, ast.Return) and isinstance(st.value, ast.Name) and st.value.id == inners[-1].name for st in fi.node.body):
@@ -151,6 +153,9 @@ def _classify_sig_expr(val, param, sig_vars, replaced):
     return "unknown"
 
 
+_MODULE_DEFS = {}
+
+
 def _param_items(e):
     """flatten a `parameters=` expression into ['P' (one extra parameter), 'SIG' (the signature's own parameters), '?']"""
     if isinstance(e, (ast.List, ast.Tuple)):
@@ -160,6 +165,8 @@ def _param_items(e):
                 out.extend(_param_items(x.value))
             elif isinstance(x, ast.Call) and (util.dotted(x.func) or "").split(".")[-1] == "Parameter":
                 out.append("P")
+            elif isinstance(x, ast.Name) and isinstance(_MODULE_DEFS.get(x.id), ast.Assign) and isinstance(_MODULE_DEFS[x.id].value, ast.Call) and (util.dotted(_MODULE_DEFS[x.id].value.func) or "").split(".")[-1] == "Parameter":
+                out.append("P")  # a module-level constant holding the extra parameter
             else:
                 out.append("?")
         return out
@@ -295,6 +302,10 @@ def leaf_flags(chk):
     facs = s_factories(prog)
     chk.floor(rule, len(facs), 4)
     for fi, call in facs:
+        # the factory only builds the template: what is acceptable is decided by the template's check alone
+        for n in ast.walk(fi.node):
+            if isinstance(n, ast.Raise):
+                chk.bad(rule, fi.qual, "%s rejects arguments on its own (%s): arguments the constructor accepts -- and that the same template accepts when they are supplied by a later call -- are refused here" % (fi.name, util.unparse(n)[:80]), node=n, stmt="factory-own-raise")
         leaf = None
         for kw in call.keywords:
             if kw.arg == "__leaf__":
